@@ -8,32 +8,32 @@ PLUGINS = [TimePlugin()]
 
 LEMMAS = [
     LEMMA("TS_NORMALISED", {"us": "int"}, [], "0 <= TS_NANOS(us) < 1000000000 and TS_NANOS(us) % 1000 == 0", props=["C15"]),
-    LEMMA("TS_ROUNDTRIP", {"us": "int"}, [], "TS_SEC(us) * 1000000 + TS_NANOS(us) // 1000 == us", props=["C15", "C01"],
+    LEMMA("TS_ROUNDTRIP", {"us": "int"}, [], "TS_SEC(us) * 1000000 + TS_NANOS(us) // 1000 == us", props=["C15", "C01", "C04", "C05"],
           notes="decoding the (seconds, nanos) pair of an instant gives the instant back, at microsecond resolution"),
     LEMMA("DUR_NORMALISED", {"us": "int"}, [],
           "-1000000000 < DUR_NANOS(us) < 1000000000 and DUR_NANOS(us) % 1000 == 0 and DUR_SEC(us) * DUR_NANOS(us) >= 0"
           " and implies(us >= 0, DUR_SEC(us) >= 0 and DUR_NANOS(us) >= 0) and implies(us <= 0, DUR_SEC(us) <= 0 and DUR_NANOS(us) <= 0)",
           props=["C15"], notes="seconds and nanos never have opposite signs"),
-    LEMMA("DUR_ROUNDTRIP", {"us": "int"}, [], "DUR_SEC(us) * 1000000 + DUR_NANOS(us) // 1000 == us", props=["C15", "C01"]),
+    LEMMA("DUR_ROUNDTRIP", {"us": "int"}, [], "DUR_SEC(us) * 1000000 + DUR_NANOS(us) // 1000 == us", props=["C15", "C01", "C04", "C05"]),
 ]
 
 CONTRACTS = [
     FN("betterproto.datetime_default_gen", inline=True),
     FN("betterproto._Timestamp.from_datetime", types={"cls": "model:msgcls", "dt": "model:datetime"}, returns="any",
        ensures=[("C15-exact-pair", "result.seconds == TS_SEC(US(dt)) and result.nanos == TS_NANOS(US(dt))")],
-       top=["C15-exact-pair"], props=["C15", "C01", "C02"]),
+       top=["C15-exact-pair"], props=["C15", "C01", "C02", "C04", "C05"]),
     FN("betterproto._Timestamp.to_datetime", types={"self": "model:tsmsg"}, returns="any",
        requires=[("normalised", "0 <= self.nanos < 1000000000")],
        ensures=[("C15-instant", "US(result) == self.seconds * 1000000 + self.nanos // 1000")],
-       top=["C15-instant"], props=["C15", "C01"]),
+       top=["C15-instant"], props=["C15", "C01", "C04", "C05"]),
     FN("betterproto._Duration.from_timedelta", types={"cls": "model:msgcls", "delta": "model:timedelta", "_1_microsecond": "model:timedelta"},
        returns="any",
        requires=[("default-argument", "US(_1_microsecond) == 1")],
        ensures=[("C15-exact-pair", "result.seconds == DUR_SEC(US(delta)) and result.nanos == DUR_NANOS(US(delta))")],
-       top=["C15-exact-pair"], props=["C15", "C01", "C02"]),
+       top=["C15-exact-pair"], props=["C15", "C01", "C02", "C04", "C05"]),
     FN("betterproto._Duration.to_timedelta", types={"self": "model:tsmsg"}, returns="any",
        requires=[("microsecond-resolution", "-1000000000 < self.nanos < 1000000000 and self.nanos % 1000 == 0"),
                  ("in-range", "-315576000001 < self.seconds < 315576000001")],
        ensures=[("C15-span", "US(result) == self.seconds * 1000000 + self.nanos // 1000")],
-       top=["C15-span"], props=["C15", "C01"]),
+       top=["C15-span"], props=["C15", "C01", "C04", "C05"]),
 ]
